@@ -226,7 +226,7 @@ class Netcdf(Input):
         else:
             id = np.arange(len(lat))
         if "altitude" not in self._file.variables:
-            elev = np.nan * np.zeros(lat.shape)
+            elev = np.zeros(lat.shape)
         else:
             elev = verif.util.clean(self._file.variables["altitude"])
         locations = list()
